@@ -121,4 +121,38 @@ theorem relateImplWith_disjoint_eq_spec (ar : Arith) {a b : Geom} {ra rb : Pt ×
   rw [relateImplWith_of_disjoint ar a b h,
     relateSpec_disjoint_of_dimsSpec (sep_of_envelopes ha hb h ia ib) ca cb da db]
 
+/-- the same for every pair of operands without hole coordinates, empty ones included (an operand
+without coordinates has no bounding rectangle and is separated from everything) -/
+theorem sep_of_envelopes_noInteriors {a b : Geom} (h : envelopesMeet a b = false)
+    (hva : Geo.Proofs.C19.rectsValid a = true) (hna : Geo.Proofs.C19.noInteriors a = true)
+    (hvb : Geo.Proofs.C19.rectsValid b = true) (hnb : Geo.Proofs.C19.noInteriors b = true) :
+    Sep (parts a) (parts b) := by
+  cases ha : boundingRect a with
+  | none =>
+    have : coordsIter a = [] := (Geo.Proofs.C19.bbox_none_iff_coords a hna).1 ha
+    left
+    intro p hp
+    have := mem_coordsIter_of_parts a p hp
+    simp_all
+  | some ra =>
+    cases hb : boundingRect b with
+    | none =>
+      have : coordsIter b = [] := (Geo.Proofs.C19.bbox_none_iff_coords b hnb).1 hb
+      left
+      intro p _ q hq
+      have := mem_coordsIter_of_parts b q hq
+      simp_all
+    | some rb =>
+      exact sep_of_envelopes ha hb h (coordsInBox_of_noInteriors a hva hna) (coordsInBox_of_noInteriors b hvb hnb)
+
+/-- **the disjoint-envelope shortcut is sound** for operands without hole coordinates (all types
+but polygons with holes), empty operands included -/
+theorem relateImplWith_disjoint_eq_spec_noInteriors (ar : Arith) {a b : Geom} (h : envelopesMeet a b = false)
+    (hva : Geo.Proofs.C19.rectsValid a = true) (hna : Geo.Proofs.C19.noInteriors a = true)
+    (hvb : Geo.Proofs.C19.rectsValid b = true) (hnb : Geo.Proofs.C19.noInteriors b = true)
+    (ca : ClosedExt (parts a)) (cb : ClosedExt (parts b)) (da : DimsSpec a) (db : DimsSpec b) :
+    relateImplWith ar a b = some (relateSpec a b) := by
+  rw [relateImplWith_of_disjoint ar a b h,
+    relateSpec_disjoint_of_dimsSpec (sep_of_envelopes_noInteriors h hva hna hvb hnb) ca cb da db]
+
 end Geo.Proofs.RELM
